@@ -30,7 +30,10 @@ def strictly_decreasing(xp):
 
 
 def strictly_monotone(xp):
-    return Or(strictly_increasing(xp), strictly_decreasing(xp))
+    """strictly increasing or strictly decreasing, the direction being the one the end points show (for two or more
+    nodes this is the same as `increasing or decreasing`; written as two implications so that each can be instantiated)"""
+    up = xp[ln(xp) - 1] > xp[0]
+    return And(implies(up, strictly_increasing(xp)), implies(Not(up), strictly_decreasing(xp)))
 
 
 def ascending(xp):
@@ -79,6 +82,13 @@ def _enc_bracket(a, r):
         r[1, j] == r[0, j] + 1, brackets(a.xp, a.x[j], r[0, j], r[1, j]))), "j")
 
 
+def _enc_unique(a, r):
+    """the bracketing bin is the only one: whichever k brackets the target is the index returned"""
+    n = ln(a.xp)
+    return forall(0, ln(a.x), lambda j: forall(0, n - 1, lambda k: implies(brackets(a.xp, a.x[j], k, k + 1),
+                                                                       And(r[0, j] == k, r[1, j] == k + 1)), "k"), "j")
+
+
 def _enc_clip(a, r):
     n = ln(a.xp)
     return forall(0, ln(a.x), lambda j: And(
@@ -122,10 +132,12 @@ enclosing = Contract(
     ensures=[("shape", lambda a, r: And(r.shape[0] == 2, r.shape[1] == ln(a.x))),
              ("in_range", _enc_range),
              ("bracket", _enc_bracket),
+             ("bracket_unique", _enc_unique),
              ("clip", _enc_clip)],
     witness=[lambda: ("", {"xp": __import__("numpy").array([0.0, 1.0, 3.0, 7.0]), "x": __import__("numpy").array([-1.0, 0.0, 0.5, 1.0, 6.9, 7.0, 8.0]), "regular_xp": False, "period": None}),
              lambda: ("", {"xp": __import__("numpy").array([7.0, 3.0, 1.0, 0.0]), "x": __import__("numpy").array([-1.0, 0.0, 0.5, 1.0, 6.9, 7.0, 8.0]), "regular_xp": False, "period": None})],
-    options={"samples": _enc_samples, "finite_reals": True},
+    options={"samples": _enc_samples, "finite_reals": True,
+             "result": lambda mk, a: mk.array("indices", (2, mk.st.deref(a.x).shape[0]), "int")},
 )
 
 
